@@ -75,7 +75,7 @@ class CallGen:
         r = self.r
         if env and r.random() < 0.35 and depth < 3:
             name, cls = r.choice(env)
-            return self.method_call(N(name), N(name), cls, r.choice(["m0", "m1", "m2", "m3", "gen", "cached", "cached_cls"]), env, depth, allow_missing=False)
+            return self.method_call(N(name), N(name), cls, r.choice(["m0", "m1", "m2", "m3", "gen", "cached", "cached_cls", "value", "as_pandas", "QMetaData"]), env, depth, allow_missing=False)
         v = r.choice([1, 2, 0.5, 10, True])
         if r.random() < 0.15:
             return ast.UnaryOp(op=ast.USub(), operand=C(3)), ast.UnaryOp(op=ast.USub(), operand=C(3))
@@ -138,7 +138,7 @@ class CallGen:
         k = r.random()
         name, cls = r.choice(env)
         if k < 0.45 or depth >= 3:
-            return self.method_call(N(name), N(name), cls, r.choice(["m0", "m1", "m2", "m3", "gen", "cached", "cached_cls"]), env, depth)
+            return self.method_call(N(name), N(name), cls, r.choice(["m0", "m1", "m2", "m3", "gen", "cached", "cached_cls", "value", "as_pandas", "QMetaData"]), env, depth)
         if k < 0.5:
             # a method of the typed object a registered function returns (its processor rebuilt the call node)
             fn, (lp, rcls) = sorted(self.m.funcs_typed.items())[0]
@@ -169,7 +169,7 @@ class CallGen:
             return ast.BinOp(left=a, op=op, right=b), ast.BinOp(left=ax, op=op, right=bx)
         colls = self.m.COLLS[cls]
         if not colls:
-            return self.method_call(N(name), N(name), cls, r.choice(["m0", "m1", "m2", "m3", "gen", "cached", "cached_cls"]), env, depth)
+            return self.method_call(N(name), N(name), cls, r.choice(["m0", "m1", "m2", "m3", "gen", "cached", "cached_cls", "value", "as_pandas", "QMetaData"]), env, depth)
         cm = r.choice(colls)
         cu, cx = self.method_call(N(name), N(name), cls, cm, env, depth)
         elem = self.m.ELEM[cm]
